@@ -468,8 +468,16 @@ def cfgOp (s : Cfg.State) (op : String) (args : List String) : Option (String ×
     let s' := { s with filtering := ← parseBool en }
     pure (renderCfg 200 s', s')
   | "cprot", [en] =>
-    let s' := { s with protection := ← parseBool en }
+    let (code, s') := Cfg.setProtection s (← parseBool en) 0
+    pure (renderCfg code s', s')
+  | "cprot", [en, dur] =>
+    let d ← (if dur == "-" then some 0 else dur.toNat?)
+    let (code, s') := Cfg.setProtection s (← parseBool en) d
+    pure (renderCfg code s', s')
+  | "cprotlegacy", [en] =>
+    let s' := Cfg.setProtectionLegacy s (← parseBool en)
     pure (renderCfg 200 s', s')
+  | "cwait", [ms] => pure ("ok", Cfg.wait s (← ms.toNat?))
   | "chold", [_] => pure ("ok", s)
   | "cdrain", [] => pure ("ok", s)
   | "cbreak", [i] =>
@@ -522,7 +530,7 @@ def cfgStep (check : Engines → Conf → Upstream → Query → Outcome → Opt
     (st : Option Cfg.State) (op : String) (rest : List String) : Option Cfg.State × String :=
   if op == "cq" || op == "cqa" then
     match st with
-    | some s => (st, (cfgQuery check s (op == "cqa") rest).getD "bad-op")
+    | some s => (some (Cfg.afterQuery s), (cfgQuery check s (op == "cqa") rest).getD "bad-op")
     | none => (st, "bad-op")
   else
     match splitArrow rest with
